@@ -13,6 +13,8 @@ def main(run, cfg, path):
         print('replay file names obligation %s; no failing input was found. Solver output:' % rec.get('obligation'))
         print(json.dumps(rec.get('solver'), indent=1))
         return 1
+    if str(rec.get('obligation', '')).startswith('bounded::'):
+        return replay_bounded(run, cfg, rec)
     func = rec['function']
     c = CONTRACTS.get(func)
     if c is not None and c.lang == 'c':
@@ -26,3 +28,35 @@ def main(run, cfg, path):
     bad = replay.definite(chk.check_ensures(rec['failing_input'], out, case))
     print('function %s\ninput %s\nnative outcome %s\nviolated: %s' % (func, json.dumps(rec['failing_input']), json.dumps(out), bad))
     return 1 if bad else 0
+
+
+def _canon(v):
+    return json.dumps(v, sort_keys=True, default=str)
+
+
+def replay_bounded(run, cfg, rec):
+    """A violation found by a bounded sweep: the sweep is deterministic in (seed, tier), so it is run again on the
+    current tree with the recorded seed and tier and the recorded failing input is looked up among its findings."""
+    name = rec['obligation'][len('bounded::'):]
+    fn = cfg.get('bounded', {}).get(name)
+    if fn is None:
+        print('unknown bounded sweep %s' % name)
+        return 3
+    run.seed = int(rec.get('seed', run.seed) or 0)
+    run.tier = rec.get('tier', run.tier)
+    import random
+    run.rng = random.Random(run.seed)
+    res = fn(run)
+    if isinstance(res, dict) and run.prop in res and 'evaluations' not in res:
+        res = res[run.prop]
+    want = _canon(rec.get('failing_input'))
+    for v in res.get('violations', []):
+        if _canon(v.get('failing_input')) == want:
+            print('sweep %s (seed %s, tier %s) on the current tree reproduces the recorded violation:' % (name, run.seed, run.tier))
+            print('  what : %s' % v.get('what'))
+            print('  input: %s' % _canon(v.get('failing_input'))[:2000])
+            return 1
+    print('sweep %s (seed %s, tier %s) on the current tree: the recorded input no longer violates the property '
+          '(%d evaluations, %d other findings incl. known ones)' % (name, run.seed, run.tier, res.get('evaluations', 0),
+                                                                   len(res.get('violations', []))))
+    return 0
